@@ -143,6 +143,30 @@ var sharedDelays = &simbox.SimDelays{OpcodeDelays: map[string]simbox.DelayDistri
 	"r2o":   {1: 1.0},
 }}
 
+// The linear-quantiser opcode family (addlqs<S>t<T> …) needs its ranges table: the tools (cmd/basm,
+// cmd/bondmachine, …) hand the table of bmnumbers' dyn_linear_quantizer type to procbuilder's dynamic
+// instruction at start-up; the harness does the same, once, before anything is simulated.
+func init() {
+	var lqRanges *map[int]bmnumbers.LinearDataRange
+	for _, t := range bmnumbers.AllDynamicalTypes {
+		if t.GetName() == "dyn_linear_quantizer" {
+			lqRanges = t.(bmnumbers.DynLinearQuantizer).Ranges
+		}
+	}
+	if lqRanges == nil {
+		return
+	}
+	(*lqRanges)[1] = bmnumbers.LinearDataRange{Max: 8}
+	(*lqRanges)[2] = bmnumbers.LinearDataRange{Max: 100}
+	for i, t := range procbuilder.AllDynamicalInstructions {
+		if t.GetName() == "dyn_linear_quantizer" {
+			dynIst := t.(procbuilder.DynLinearQuantizer)
+			dynIst.Ranges = lqRanges
+			procbuilder.AllDynamicalInstructions[i] = dynIst
+		}
+	}
+}
+
 var buildMu sync.Mutex // EventuallyCreateInstruction appends to Allopcodes without synchronisation
 
 func (c caseSpec) build() (*bondmachine.Bondmachine, error) {
@@ -374,6 +398,41 @@ func genCases(tier string) []caseSpec {
 		{"rset r0 1", "rset r1 2", "addp r0 r1", "r2o r0 o0"}}})
 	cs = append(cs, caseSpec{ID: n + 3, P: 2, Rsize: 16, Ticks: 7, Progs: [][]string{
 		{"rset r0 3", "rset r1 4", "addfps16f8 r0 r1", "r2o r0 o0"}, {"rset r0 5", "rset r1 6", "addfps16f8 r0 r1", "addfps16f8 r0 r1"}}})
+	// dynamic opcode families (created through procbuilder.EventuallyCreateInstruction, as basm does):
+	// their two/three-phase pipeline state must live in the executing VM.
+	//  (a) one core stopping in the middle of the operation (the next simulation of the process must not
+	//      inherit the phase), (b) two/three cores executing the same opcode name with a phase offset
+	dynOps := []string{"addfxps16f8", "multfxps16f8", "addfps16f8", "multfps16f4", "addlqs16t1", "multlqs16t2"} // (no div*: a zero divisor panics the simulator, that is not this property)
+	did := n + 20
+	for _, op := range []string{"addfxps16f8", "addfps16f8", "multlqs16t1"} {
+		did++
+		cs = append(cs, caseSpec{ID: did, P: 1, Rsize: 16, Ticks: 3, Progs: [][]string{
+			{"rset r0 300", "rset r1 512", op + " r0 r1", "r2o r0 o0"}}})
+		did++
+		cs = append(cs, caseSpec{ID: did, P: 2, Rsize: 16, Ticks: 9, Progs: [][]string{
+			{"rset r0 300", "rset r1 512", op + " r0 r1", op + " r0 r1", "r2o r0 o0"},
+			{"rset r0 700", "rset r1 256", "nop", op + " r0 r1", op + " r1 r0", "r2o r0 o0"}}})
+	}
+	for q := 0; q < 3; q++ {
+		did++
+		op := dynOps[rng.Intn(len(dynOps))]
+		c := caseSpec{ID: did, P: 2 + rng.Intn(2), Rsize: 16, Ticks: 11 + 2*rng.Intn(10)}
+		for p := 0; p < c.P; p++ {
+			prog := []string{fmt.Sprintf("rset r0 %d", 256+rng.Intn(700)), fmt.Sprintf("rset r1 %d", 256+rng.Intn(700))}
+			for k := 0; k < p+rng.Intn(2); k++ {
+				prog = append(prog, "nop") // phase offset between the cores
+			}
+			for k := 0; k < 2+rng.Intn(3); k++ {
+				prog = append(prog, fmt.Sprintf("%s r%d r%d", op, rng.Intn(2), rng.Intn(2)))
+				if rng.Bool() {
+					prog = append(prog, "inc r2")
+				}
+			}
+			prog = append(prog, "r2o r0 o0", "j 2")
+			c.Progs = append(c.Progs, prog)
+		}
+		cs = append(cs, c)
+	}
 	// simbox-driven cases: several periodic set rules (different periods, different values) on the same
 	// input, with and without an absolute set on a common multiple: the trace must not depend on the run
 	ioProg := []string{"rset r0 1", "i2r r2 i0", "r2o r2 o0", "add r0 r2", "j 1"}
